@@ -30,7 +30,12 @@ NoLimit == 1000
 \*   set-after      timeout = N after the use (later in the phase / in a later phase): not in force at the use
 \*   none-then-set  timeout = none, then timeout = N, both before the use
 \*   set-then-none  timeout = N, then timeout = none, both before the use: lifted from that point on
-LimitAtUse(h) == IF h \in {"set-before", "none-then-set"} THEN Limit ELSE NoLimit
+\* "the use" is the point at which the process STARTS.  For a program that feeds the stdin of the action to check
+\* (stdin = -stdout-from PROGRAM in [setup]) that is the act phase, later than the instruction that names it:
+\*   decl-then-set  stdin = ..., then timeout = N, both in [setup]: in force when the process starts
+\*   set-decl-none  timeout = N, stdin = ..., timeout = none: lifted when the process starts
+DeclHistories == {"decl-then-set", "set-decl-none"}
+LimitAtUse(h) == IF h \in {"set-before", "none-then-set", "decl-then-set"} THEN Limit ELSE NoLimit
 Uses(p) == CASE p = "act" -> {"actor-command-line", "actor-shell", "actor-file", "actor-source", "stdin-from-program"}
              [] p = "assert" -> {"run", "shell", "percent", "file-from-stdout", "transformer-run", "text-matcher-run",
                                  "file-matcher-run", "exit-code-from", "stdout-from"}
@@ -48,6 +53,7 @@ PhaseKey(p) == p
 TInit ==
   /\ place \in Places /\ use \in Uses(place) /\ child \in {"short", "long", "stubborn"}
   /\ hist \in Histories /\ envSet \in BOOLEAN
+  /\ (hist \in DeclHistories) => (use = "stdin-from-program")
   /\ n = [p \in Phases |-> IF p = "conf" THEN 0 ELSE IF p = "cleanup" THEN (IF place = "cleanup" THEN 2 ELSE 1)
                            ELSE IF p = place THEN 1 ELSE 0]
   /\ tcStatus = "PASS" /\ mode = "normal"
